@@ -16,12 +16,27 @@ partial def defPaths (objs : List Obj) (pfx : List Nat) : List (List Nat) :=
     | .scope _ kids => defPaths kids (pfx ++ [i])).flatten
 
 /-- make primary ids of different sources disjoint -/
+def offsetVarRes (k : Nat) : Option VarRes → Option VarRes
+  | some (.ok ws refs) => some (.ok ws (refs.map (· + k)))
+  | v => v
+
 partial def offsetIds (k : Nat) : Obj → Obj
-  | .defn m ws => .defn { m with id := m.id.map (· + k) } ws
+  | .defn m ws => .defn { m with id := m.id.map (· + k), varRes := offsetVarRes k m.varRes } ws
   | .scope m kids => .scope { m with id := m.id.map (· + k) } (kids.map (offsetIds k))
 
-def parseSources (texts : List Str) : R (List (List Obj)) :=
-  (texts.zipIdx.mapM fun (t, i) => (parseObjs t).map (fun os => os.map (offsetIds (1000000 * (i + 1)))))
+/-- parse every source, resolve its variables in its own document, then make ids disjoint -/
+def parseSources (texts : List Str) (env : Env := fun _ => none) (diff : Bool := false) : R (List (List Obj)) :=
+  (texts.zipIdx.mapM fun (t, i) =>
+    (parseObjs t).map (fun os => (preResolve env diff os).map (offsetIds (1000000 * (i + 1)))))
+
+def envOfJ (j : J) : Env :=
+  match j.getArr with
+  | some l =>
+    let tbl : List (Str × Str) := l.filterMap (fun e => match e with
+      | .arr [k, v] => (match k.getStr, v.getStr with | some k, some v => some (k, v) | _, _ => none)
+      | _ => none)
+    fun n => (tbl.find? (·.1 == n)).map (·.2)
+  | none => fun _ => none
 
 def envsOfJ (ej fj : J) : Option Envs :=
   match evalEnvOfJ ej, fmtEnvOfJ fj with
@@ -32,10 +47,12 @@ def opOfJ (j : J) : Option (Index.Op PVal Str) :=
   match j with
   | .arr [.str "update", t] => t.getStr.map Index.Op.update
   | .arr [.str "from_python"] => some (.updateFromPython none)
+  | .arr [.str "from_python", v] => (PVal.ofJ v).map (fun p => .updateFromPython (some p))
   | .arr [.str "push"] => some .push
   | .arr [.str "pop"] => some .pop
   | .arr [.str "set", .num i] => some (.setState i.toNat)
   | .arr [.str "get"] => some .getPython
+  | .arr [.str "get_noop"] => some (.setState 1000000)      -- an operation the implementation refused: no effect
   | _ => none
 
 def handle (req : J) : J :=
@@ -115,10 +132,11 @@ def handle (req : J) : J :=
          | _ => none)
        resJ (fun os => J.arr (os.map Obj.toJ)) (expand fs (resolvePath [] root))
      | _, _ => .str "bad-request")
-  | .arr [.str "fetch", mt, srcs, diff, ej, fj] =>
+  | .arr (.str "fetch" :: mt :: srcs :: diff :: ej :: fj :: rest) =>
     (match mt.getStr, srcs.getArr, diff.getBool, envsOfJ ej fj with
      | some mt, some srcs, some diff, some envs =>
-       (match parseObjs mt, parseSources (srcs.filterMap J.getStr) with
+       let env : Env := match rest with | e :: _ => envOfJ e | [] => fun _ => none
+       (match (parseObjs mt).map (preResolve env diff), parseSources (srcs.filterMap J.getStr) env diff with
         | .error e, _ => .arr [.str "parse-failed", e.toJ]
         | _, .error e => .arr [.str "parse-failed", e.toJ]
         | .ok m, .ok ss =>
